@@ -82,9 +82,12 @@ LAST = ["Knuth", "Brinch Hansen", "Beethoven", "{Barnes and Noble}", "M{\\\"u}ll
 JR = ["Jr.", "III"]
 
 
-def name_list(rng):
+def name_list(rng, persons=None):
     names = []
     for _ in range(rng.randint(1, 4)):
+        if persons is not None and persons and rng.random() < 0.6:
+            names.append(rng.choice(persons))        # the same people write and edit several entries of one file
+            continue
         f = " ".join(rng.sample(FIRST, rng.randint(1, 2)))
         v = rng.choice(VON) + " " if rng.random() < 0.3 else ""
         l = rng.choice(LAST)
@@ -97,6 +100,8 @@ def name_list(rng):
             names.append(f"{v}{l}, {rng.choice(JR)}, {f}")
         else:
             names.append(rng.choice(["others", "Last,", "a, b, c, d", "{unbalanced", l]))
+    if persons is not None and len(persons) < 4:
+        persons.extend(n for n in names if n not in persons)
     return rng.choice([" and ", " and ", " AND ", "\n and "]).join(names)
 
 
@@ -137,6 +142,8 @@ def _key(rng, k, pool):
         return rng.choice(pool)
     n = rng.randint(1, 8)
     kk = "".join(rng.choice(KEYCHARS) for _ in range(n))
+    if pool and rng.random() < k.get("casekeys", 0.0):
+        kk = rng.choice(pool).swapcase()      # differs from an earlier key in letter case only (distinct keys in BibTeX files)
     while not k["collide"] and kk in pool:
         kk += rng.choice(KEYCHARS)
     pool.append(kk)
@@ -152,6 +159,7 @@ def make_doc(rng, knobs=None):
     out = []
     pos = 0
     entry_keys, string_keys = [], []
+    persons = []
     last_kind = None
     weights = [("entry", k["p_entry"]), ("string", k["p_string"]), ("preamble", k["p_preamble"]),
                ("xcomment", k["p_xcomment"]), ("icomment", k["p_icomment"])]
@@ -182,6 +190,8 @@ def make_doc(rng, knobs=None):
             emit("@" + t + rng.choice(["", "", " ", "\t"]) + "{" + _ws(rng, k, "x") + key)
             nf = rng.randint(0, k["maxfields"])
             fkeys = rng.sample(FKEYS, min(nf, len(FKEYS)))
+            if k["collide"] and len(fkeys) >= 2 and rng.random() < k.get("dupfields", 0.0):
+                fkeys[rng.randrange(1, len(fkeys))] = fkeys[0]      # a repeated field key -> duplicate-field block
             fields = []
             if nf == 0 and rng.random() < 0.5:
                 pass  # "@type{key}" (RefTeX style)
@@ -195,7 +205,7 @@ def make_doc(rng, knobs=None):
                     same_line = "\n" not in seg
                     eq_pos = pos
                     if k.get("names") and fk in ("author", "editor") and rng.random() < 0.85:
-                        v = "{" + name_list(rng) + "}"
+                        v = "{" + name_list(rng, persons) + "}"
                     elif k.get("names") and fk == "month" and rng.random() < 0.8:
                         v = rng.choice(["jan", "{February}", "3", "{12}", "\"dec\"", "13", "Mar", "{sept}"])
                     else:
@@ -211,7 +221,8 @@ def make_doc(rng, knobs=None):
             if not k["collide"] and key in string_keys:
                 key = "s%d" % bi
             string_keys.append(key)
-            v = value(rng, k, list(string_keys[:-1]) * 2)     # chains: a string may name an earlier string
+            # chains: a string may name an earlier string; with the cycles knob also itself or any other key
+            v = value(rng, k, (list(string_keys) + STRKEYS) * 2 if k.get("cycles") else list(string_keys[:-1]) * 2)
             emit("@" + rng.choice(["string", "String", "STRING"]) + rng.choice(["", " "]) + "{" + _ws(rng, k, "x") + key
                  + _ws(rng, k, "eq") + "=" + _ws(rng, k, "eq") + v + _ws(rng, k, "x") + "}")
             b.update({"key": key, "value": v})
@@ -266,6 +277,9 @@ def draw_knobs(rng, tier="quick", encoding="utf-8"):
         "newline": rng.choice(["\n", "\n", "\n", "\r\n"]),
         "layout": rng.choice(["pretty", "pretty", "compact", "wild"]),
         "collide": False,
+        "casekeys": rng.choice([0.0, 0.0, 0.3]),
+        "dupfields": rng.choice([0.0, 0.3]),
+        "cycles": rng.random() < 0.15,
         "maxfields": rng.choice([0, 2, 5, 8]),
         "nest": rng.choice([0, 1, 2, 4]),
         "multiline": rng.choice([0.0, 0.2, 0.6]),
